@@ -287,7 +287,7 @@ Definition wire_octets_ok (tail : list N) (x : case) : bool :=
   match x with
   | CaseWire tr c _ h (Some q) strict (Some d) hasd ede blen _ (Some _) _ _ _ =>
       let w := mk_wstate tr strict q (set_edns0 c q) in
-      match write_wire tr c w (clear_opt d) hasd ede blen with
+      match write_wire tr c w (clear_opt d) (h_ad (m_hdr d)) hasd ede blen with
       | Some _ => w_noedns w || bytes_eqb (wire_opt_octets c w ede) tail
       | None => true
       end
